@@ -5062,7 +5062,11 @@ class WBEMConnection:  # pylint: disable=too-many-instance-attributes
                     # Open operation succeeded; set has_pull flag
                     self._use_enum_inst_pull_operations = True
 
+                    # The returned instance paths always include the host;
+                    # complete it if the server did not provide it.
                     for inst in pull_result.instances:
+                        if inst.path.host is None:
+                            inst.path.host = self.host
                         yield inst
 
                     # loop to pull while more while eos not returned.
@@ -5071,6 +5075,8 @@ class WBEMConnection:  # pylint: disable=too-many-instance-attributes
                             pull_result.context, MaxObjectCount=MaxObjectCount)
 
                         for inst in pull_result.instances:
+                            if inst.path.host is None:
+                                inst.path.host = self.host
                             yield inst
                     pull_result = None   # clear the pull_result
                     return
@@ -5347,14 +5353,22 @@ class WBEMConnection:  # pylint: disable=too-many-instance-attributes
                     # Open operation succeeded; set has_pull flag
                     self._use_enum_path_pull_operations = True
 
-                    yield from pull_result.paths
+                    # The returned instance paths always include the host;
+                    # complete it if the server did not provide it.
+                    for path in pull_result.paths:
+                        if path.host is None:
+                            path.host = self.host
+                        yield path
 
                     # Loop to pull while more while eos not returned.
                     while not pull_result.eos:
                         pull_result = self.PullInstancePaths(
                             pull_result.context, MaxObjectCount=MaxObjectCount)
 
-                        yield from pull_result.paths
+                        for path in pull_result.paths:
+                            if path.host is None:
+                                path.host = self.host
+                            yield path
                     pull_result = None   # clear the pull_result
                     return
 
